@@ -89,6 +89,12 @@ func c11model(c *Ctx, only map[string]string) {
 		x, y := int64(200+(i%6)*37+(i/6)*5), int64(200+(i/6)*41+(i%6)*3)
 		m.boxes = append(m.boxes, c11box{x, y, x + 20 + int64(i%3)*9, y + 18 + int64(i%4)*7})
 	}
+	// … and points in a column and a row: their envelopes have no area, so a deletion at the end of
+	// the column shrinks a box whose area does not change
+	degenerate := len(m.boxes)
+	for _, q := range [][2]int64{{600, 600}, {600, 610}, {600, 620}, {600, 900}, {930, 901}, {940, 901}, {600, 630}, {600, 640}, {950, 901}, {600, 650}} {
+		m.boxes = append(m.boxes, c11box{q[0], q[1], q[0], q[1]})
+	}
 	for _, b := range m.boxes {
 		m.objs = append(m.objs, m.it.bounds(cm.bt, cm.ptT, b.minx, b.miny, b.maxx, b.maxy))
 	}
@@ -106,7 +112,7 @@ func c11model(c *Ctx, only map[string]string) {
 	histories := [][]c11op{}
 	// insert all, delete all in another order, refill
 	var h []c11op
-	for i := range m.boxes {
+	for i := 0; i < degenerate; i++ {
 		h = append(h, c11op{false, i})
 	}
 	for _, i := range []int{3, 0, 7, 11, 5, 1, 9, 2, 10, 4, 8, 6} {
@@ -132,6 +138,12 @@ func c11model(c *Ctx, only map[string]string) {
 			h = append(h, c11op{false, (i * 5) % 36})
 		}
 		histories = append(histories, h)
+	}
+	// points in a column and a row: delete the far end of the column (no underflow), then more
+	{
+		d := degenerate
+		histories = append(histories, []c11op{{false, d + 4}, {false, d + 5}, {false, d}, {false, d + 1}, {false, d + 2}, {false, d + 3}, {true, d + 3},
+			{false, d + 6}, {false, d + 7}, {false, d + 8}, {false, d + 9}, {false, d + 3}, {true, d + 3}, {true, d}, {true, d + 8}, {false, d}, {true, d + 9}, {true, d + 4}})
 	}
 	params := [][2]int{{2, 4}, {2, 5}}
 	if c.Thorough {
@@ -413,7 +425,7 @@ func c11model(c *Ctx, only map[string]string) {
 		case anyUnk != "":
 			c.Unk(ruleOf[k], cons, pos, "%s", anyUnk)
 		default:
-			c.OK(ruleOf[k], cons, pos, "holds after every operation of %d runs (3 histories × branching parameters × the geometric resolution and %d arbitrary resolutions of the heuristic comparisons)", runs, streams)
+			c.OK(ruleOf[k], cons, pos, "holds after every operation of %d runs (%d histories × branching parameters × the geometric resolution and %d arbitrary resolutions of the heuristic comparisons)", runs, len(histories), streams)
 		}
 	}
 }
